@@ -198,3 +198,97 @@ Definition count_ok (t : Z * Z * Z) : bool :=
 
 Lemma count_all_le8 : forallb count_ok triples8 = true.
 Proof. vm_compute. reflexivity. Qed.
+
+(* ---- the ls_list / l_list options restrict the enumeration (get_ls_list after /repo 47acb11) ---- *)
+Lemma pair_eqb_eq p q : pair_eqb p q = true <-> p = q.
+Proof.
+  unfold pair_eqb. destruct p as [a b], q as [c d]. cbn [fst snd].
+  rewrite andb_true_iff, !Z.eqb_eq. split.
+  - intros [-> ->]. reflexivity.
+  - intros H. injection H as -> ->. split; reflexivity.
+Qed.
+
+Lemma pair_mem_In p l : pair_mem p l = true <-> In p l.
+Proof.
+  unfold pair_mem. rewrite existsb_exists. split.
+  - intros [q [Hq He]]. apply pair_eqb_eq in He. subst q. exact Hq.
+  - intros H. exists p. split; [exact H|]. apply pair_eqb_eq. reflexivity.
+Qed.
+
+Lemma dedup_first_In l p : In p (dedup_first l) <-> In p l.
+Proof.
+  induction l as [|q r IH]; cbn [dedup_first]; [tauto|].
+  cbn [In]. rewrite filter_In, IH. split.
+  - intros [H|[H _]]; [left; exact H|right; exact H].
+  - intros [H|H]; [left; exact H|].
+    destruct (pair_eqb q p) eqn:E.
+    + apply pair_eqb_eq in E. left. exact E.
+    + right. split; [exact H|]. reflexivity.
+Qed.
+
+Lemma NoDup_filter_pairs (f : Z * Z -> bool) l : NoDup l -> NoDup (filter f l).
+Proof.
+  induction 1 as [|x l Hx Hl IH]; cbn [filter]; [constructor|].
+  destruct (f x); [constructor; [|exact IH]|exact IH].
+  intros Hin. apply filter_In in Hin. apply Hx. apply Hin.
+Qed.
+
+Lemma dedup_first_NoDup l : NoDup (dedup_first l).
+Proof.
+  induction l as [|q r IH]; cbn [dedup_first]; constructor.
+  - intros Hin. apply filter_In in Hin. destruct Hin as [_ Hn].
+    assert (E : pair_eqb q q = true) by (apply pair_eqb_eq; reflexivity).
+    cbv beta in Hn. rewrite E in Hn. discriminate Hn.
+  - apply NoDup_filter_pairs. exact IH.
+Qed.
+
+(* the order of the user's list is kept: the result is a sub-sequence of the de-duplicated option *)
+Lemma user_ls_spec enumerated l_list ls_opt p :
+  In p (user_ls enumerated l_list ls_opt) <->
+  In p enumerated /\
+  (match ls_opt with Some u => In p u | None => True end) /\
+  (match l_list with Some a => In (fst p) a | None => True end).
+Proof.
+  unfold user_ls. destruct ls_opt as [u|]; destruct l_list as [a|];
+    rewrite ?restrict_l_subset, ?filter_In, ?pair_mem_In, ?dedup_first_In; tauto.
+Qed.
+
+Lemma user_ls_NoDup enumerated l_list ls_opt :
+  NoDup enumerated -> NoDup (user_ls enumerated l_list ls_opt).
+Proof.
+  intros He. unfold user_ls, restrict_l.
+  destruct ls_opt as [u|]; destruct l_list as [a|];
+    repeat apply NoDup_filter_pairs; try exact He; apply dedup_first_NoDup.
+Qed.
+
+Lemma existsb_Zeqb_In x a : existsb (Z.eqb x) a = true <-> In x a.
+Proof.
+  rewrite existsb_exists. split.
+  - intros [y [Hy He]]. apply Z.eqb_eq in He. subst y. exact Hy.
+  - intros H. exists x. split; [exact H|apply Z.eqb_refl].
+Qed.
+
+(* as a SET of columns the offered list is the enumeration filtered by both options (the rank statement
+   C13_ls_map_full_rank_* is about such filters; the user's order only permutes the columns) *)
+Lemma user_ls_perm_filter enumerated l_list ls_opt :
+  NoDup enumerated ->
+  Permutation (user_ls enumerated l_list ls_opt)
+    (filter (fun p => (match ls_opt with Some u => pair_mem p u | None => true end) &&
+                      (match l_list with Some a => existsb (Z.eqb (fst p)) a | None => true end)) enumerated).
+Proof.
+  intros He. apply NoDup_Permutation.
+  - apply user_ls_NoDup. exact He.
+  - apply NoDup_filter_pairs. exact He.
+  - intros p. rewrite user_ls_spec, filter_In, andb_true_iff.
+    destruct ls_opt as [u|]; destruct l_list as [a|];
+      rewrite ?pair_mem_In, ?existsb_Zeqb_In; intuition.
+Qed.
+
+(* the behaviour before the repair offered forbidden and repeated couplings *)
+Example user_ls_old_refuted :
+  exists enumerated u, ~ incl (user_ls_old enumerated None (Some u)) enumerated /\ ~ NoDup (user_ls_old enumerated None (Some [(1,2);(1,2)])).
+Proof.
+  exists [(1, 0)], [(0, 0); (1, 0)]. split.
+  - intros H. specialize (H (0, 0) (or_introl eq_refl)). cbn in H. destruct H as [H|[]]. discriminate H.
+  - intros H. inversion H as [|x l Hx Hl]; subst. apply Hx. left. reflexivity.
+Qed.
